@@ -5,6 +5,7 @@
 import OllamaVerif.Model.Stream
 import OllamaVerif.Generated.C17_Reasons
 import OllamaVerif.Generated.C17_Client
+import OllamaVerif.Generated.C17_Variant
 namespace OllamaVerif.Tie.C17
 open OllamaVerif OllamaVerif.Stream OllamaVerif.Generated.C17
 
@@ -22,5 +23,14 @@ theorem client_limit_documented : clientMaxLine = 512000 := by decide
     used by `one_final_*_fixedD`) is the real `errIncompleteResponse`, and the client's refusal of an
     over-long line (`sTooLong`, `client_long_line`) is the real `bufio.ErrTooLong` -/
 theorem error_texts_match : incompleteMsg = sIncomplete ∧ tooLongMsg = sTooLong := by decide
+
+/-- **the variant the theorems are read for is the variant of the tree**: probed on the real handlers,
+    writers and client with the findings' own inputs on every run — the streaming tool path still loses a
+    call after a parsable boundary prefix (F17a present), the non-streamed reply numbers its calls (F17b
+    repaired), a runner error is an OpenAI error event (F17c repaired), a run without a done chunk is
+    reported (F17d repaired), api.Client returns the scanner's error (F17e repaired).  When a fix for F17a is
+    applied (or a repair regresses) this theorem stops checking and the THEOREMS_TREE / HISTORICAL split in
+    vlib/checks/c17.py has to be redone. -/
+theorem tree_variant : treeVariant = ⟨false, true, true, true⟩ ∧ treeClientFixed = true := by decide
 
 end OllamaVerif.Tie.C17
